@@ -167,8 +167,15 @@ class Env:
         self.ready.append((cb, a))
     def create_task(self, coro, name=""):
         t = Task(coro, name or getattr(coro, "__qualname__", "")); self.tasks.append(t); self._ready(t); return t
+    def create_eager_task(self, coro, name=""):
+        """Home Assistant (2024.x+) starts listener / service / created tasks eagerly: the coroutine runs at once, inside the caller,
+        until its first real suspension (asyncio.Task(eager_start=True))."""
+        t = Task(coro, name or getattr(coro, "__qualname__", "")); self.tasks.append(t)
+        self._step(t)
+        return t
     def _step(self, t):
         if t.done_: return
+        prev_cur = self.cur
         self.cur = t
         w = t.waiting; t.waiting = None
         if isinstance(w, _Wait) and t in w.q.getters: w.q.getters.remove(t)
@@ -190,7 +197,7 @@ class Env:
                 import traceback
                 print("TASK-EXC", t.name, "".join(traceback.format_exception(e))[-1800:], file=sys.stderr, flush=True)
         finally:
-            self.cur = None
+            self.cur = prev_cur
         if t.done_:
             t._finish(); return
         t.waiting = nw
@@ -348,7 +355,7 @@ class Bus:
         self.fired.append(ev)
         for cb in list(self.l.get(et, [])):
             r = cb(ev)
-            if asyncio.iscoroutine(r): self.hass.env.create_task(r, "listener:" + et)
+            if asyncio.iscoroutine(r): self.hass.env.create_eager_task(r, "listener:" + et)
 class Loop:
     def __init__(self, env): self.env = env
     def create_task(self, coro, name=None, **k): return self.env.create_task(coro, name or "")
@@ -368,8 +375,10 @@ class Hass:
         self.config_entries = types.SimpleNamespace(async_update_entry=lambda e, **kw: e.__dict__.update({k: v for k, v in kw.items()}),
                                                     async_entries=lambda d=None: [])
     async def async_add_executor_job(self, f, *a): return f(*a)
-    def async_create_task(self, coro, name=None, eager_start=False): return self.env.create_task(coro, name or "")
-    def async_create_background_task(self, coro, name=None, eager_start=False): return self.env.create_task(coro, name or "")
+    def async_create_task(self, coro, name=None, eager_start=True):
+        return self.env.create_eager_task(coro, name or "") if eager_start else self.env.create_task(coro, name or "")
+    def async_create_background_task(self, coro, name=None, eager_start=True):
+        return self.env.create_eager_task(coro, name or "") if eager_start else self.env.create_task(coro, name or "")
     def async_add_job(self, f, *a): return self.env.create_task(f(*a))
 
 
@@ -459,10 +468,13 @@ class World:
     def advance(self, t): self.env.advance(t)
     @property
     def now(self): return self.env.now
+    def do(self, fn):
+        """run a harness action in event-loop context (so that eagerly started listener tasks behave as inside Home Assistant)"""
+        return fn()
     def set_state(self, eid, value, attrs=None, context=None):
-        self.hass.states.async_set(eid, value, attrs, context=context); self.settle()
+        self.do(lambda: self.hass.states.async_set(eid, value, attrs, context=context)); self.settle()
     def fire(self, et, data=None, context=None):
-        self.hass.bus.async_fire(et, data, context=context); self.settle()
+        self.do(lambda: self.hass.bus.async_fire(et, data, context=context)); self.settle()
     def call_service(self, d, s, data=None, **kw):
         t = self.env.create_task(self.hass.services.async_call(d, s, data, **kw), "svc")
         self.settle(); return t
@@ -513,6 +525,12 @@ class RealEnv:
         try: return asyncio.current_task(self.loop)
         except RuntimeError: return None
     def create_task(self, coro, name=""): return self.loop.create_task(coro)
+    def create_eager_task(self, coro, name=""):
+        try:
+            asyncio.get_running_loop()
+        except RuntimeError:
+            return self.loop.create_task(coro)        # not inside the loop (harness call from outside): starts at the next iteration
+        return asyncio.Task(coro, loop=self.loop, eager_start=True)
     def settle(self):
         self.loop.run_until_complete(self._drain())
     async def _drain(self):
@@ -534,6 +552,10 @@ class RealWorld(World):
         asyncio.set_event_loop(self.env.loop)
         self._install(legacy, files, config, setup)
     def run(self, coro): return self.env.loop.run_until_complete(coro)
+    def do(self, fn):
+        async def _in_loop():
+            return fn()
+        return self.env.loop.run_until_complete(_in_loop())
     def call_service(self, d, s, data=None, **kw):
         t = self.env.loop.create_task(self.hass.services.async_call(d, s, data, **kw)); self.settle(); return t
     def close(self):
